@@ -258,3 +258,23 @@ fn c06_slot_reported_whatever_ends_the_path() {
     }
     run_cases("c06_path_endings", cases);
 }
+
+/// one path that touches MANY distinct literal keys (more than any small table would hold): every one of them is reported
+#[test]
+fn c06_many_distinct_keys_on_one_path_are_all_reported() {
+    let mut cases = vec![];
+    for (n, mixed) in [(300u64, false), (1100, false), (1100, true), (2100, true)] {
+        let mut c = vec![];
+        let mut must = vec![];
+        for i in 0..n {
+            let k = U256::from(1000 + 3 * i);
+            if mixed && i % 2 == 0 { pmin(&mut c, k); c.extend([0x54, 0x50]); } else { c.push(0x33); pmin(&mut c, k); c.push(0x55); }
+            must.push(k);
+        }
+        // a few more behind them, never read
+        for k in [U256::ONE << 128u32, U256::MAX, keccak(b"eip1967.proxy.admin") - U256::ONE] { c.push(0x33); p32(&mut c, k); c.push(0x55); must.push(k); }
+        c.push(0x00);
+        cases.push(Case { ob: "slots.many_keys", what: format!("{n} distinct literal keys (reads and writes mixed: {mixed}) and three more writes"), code: c, must });
+    }
+    run_cases("c06_many_keys", cases);
+}
